@@ -359,8 +359,9 @@ func extractOption(nodes map[string]*chanCall, opts ...Option) (map[string][]any
 				} else {
 					// designate to component
 					if curNode.action.optionType != reflect.TypeOf(opt.options[0]) { // assume that types of options are the same
-						return nil, fmt.Errorf("option type[%s] is different from which the designated node[%s] expects[%s]",
-							reflect.TypeOf(opt.options[0]).String(), path, curNode.action.optionType.String())
+						// %v: a nil option value (WithLambdaOption(nil)) has no type, reflect.TypeOf gives nil for it
+						return nil, fmt.Errorf("option type[%v] is different from which the designated node[%s] expects[%s]",
+							reflect.TypeOf(opt.options[0]), path, curNode.action.optionType.String())
 					}
 					optMap[curNodeKey] = append(optMap[curNodeKey], opt.options...)
 				}
